@@ -211,14 +211,8 @@ class Primitive(Trimesh):
         # the objects we handle re-scaling for
         # note that `Extrusion` is NOT supported
         kinds = (Box, Cylinder, Capsule, Sphere)
-        if isinstance(self, kinds) and abs(scale - 1.0) > 1e-8:
-            # scale the primitive attributes
-            if hasattr(prim, "height"):
-                prim.height *= scale
-            if hasattr(prim, "radius"):
-                prim.radius *= scale
-            if hasattr(prim, "extents"):
-                prim.extents *= scale
+        rescale = isinstance(self, kinds) and abs(scale - 1.0) > 1e-8
+        if rescale:
             # scale the translation of the current matrix
             current[:3, 3] *= scale
             # apply new matrix, rescale, translate, current
@@ -228,8 +222,18 @@ class Primitive(Trimesh):
             updated = np.dot(matrix, current)
 
         # make sure matrix is a rigid transform
+        # before changing anything on the primitive
         if not tf.is_rigid(updated):
             raise ValueError("Couldn't produce rigid transform!")
+
+        if rescale:
+            # scale the primitive attributes
+            if hasattr(prim, "height"):
+                prim.height *= scale
+            if hasattr(prim, "radius"):
+                prim.radius *= scale
+            if hasattr(prim, "extents"):
+                prim.extents *= scale
 
         # apply the new matrix
         self.primitive.transform = updated
